@@ -292,6 +292,9 @@ class MachO(BinFormat):
                 sz = elt.size()
             for n in range(count):
                 data = self.__file.read(sz)
+                if len(data) < sz:
+                    # (count is not backed by the file content)
+                    raise MachOError("truncated table")
                 tab.append(elt(data))
         return tab
 
